@@ -105,7 +105,8 @@ def find_impl_block(src, header):
     line starts with `header` (whitespace-normalised)."""
     for m in re.finditer(r'^impl\b[^{]*\{', src, re.M):
         head = ' '.join(m.group(0)[:-1].split())
-        if head.startswith(' '.join(header.split())):
+        want = ' '.join(header.split())
+        if head == want or (head.startswith(want) and not (head[len(want)].isalnum() or head[len(want)] == '_')):
             ob = m.end() - 1
             cb = match_brace(src, ob)
             return ob + 1, cb
@@ -361,6 +362,9 @@ def process_template(tmpl_text, repo):
             # start of the range: after the text `after`, or at the text `from`
             # (the nth occurrence when nth= is given)
             key = 'after' if 'after' in attrs else 'from'
+            if key not in attrs:
+                # neither `after` nor `from`: the range starts with the function body
+                attrs[key] = ''
             pos = -1
             for _ in range(int(attrs.get('nth', '1'))):
                 pos = fbody.find(attrs[key], pos + 1)
@@ -384,7 +388,7 @@ def process_template(tmpl_text, repo):
                 rend = len(fbody)
             body = fbody[rstart:rend]
             sha = hashlib.sha256(body.encode()).hexdigest()
-            ident = '%s:%s%s[%s %s%s]' % (attrs['file'], (attrs['impl'] + '::') if attrs.get('impl') else '', attrs['fn'], key, attrs[key],
+            ident = '%s:%s%s[%s %s%s]' % (attrs['file'], (attrs['impl'] + '::') if attrs.get('impl') else '', attrs['fn'], key, attrs[key] or '<start of body>',
                                           (' until ' + attrs['until']) if 'until' in attrs else (' (balanced block)' if 'balanced' in attrs else ''))
             ident = ident.replace('\n', '\\n')
             hashes[ident] = sha
